@@ -1268,6 +1268,12 @@ Section Term.
     - lia.
   Qed.
 
+  Lemma valid_root u : valid (FMain u (root_of s u)).
+  Proof.
+    unfold valid, root_of, parents_s. destruct (mfind u (st_tpls s)) as [e|]; auto.
+    destruct (e_parents e) as [|r rest]; simpl; auto.
+  Qed.
+
   (* every call goes to a valid frame of strictly smaller measure *)
   Lemma callee_decreases d f ch o d' f' :
     valid f -> d <= max_comp_depth -> frame_chunk s f = Some ch -> In o ch ->
@@ -1276,10 +1282,10 @@ Section Term.
   Proof.
     intros Hv Hd Hch Hin Hc. destruct o as [i|n|b| |c]; cbn [callee] in Hc.
     - discriminate.
-    - (* include: the included template's own main chunk *)
+    - (* include: the root ancestor's main chunk, under the included template *)
       destruct (resolve pre (st_tpls s) n) as [u|] eqn:Er; [|discriminate].
-      injection Hc as <- <-. split; [simpl; auto|].
-      assert (rho (FMain u u) < rho f) as Hlt.
+      injection Hc as <- <-. split; [apply valid_root|].
+      assert (rho (FMain u (root_of s u)) < rho f) as Hlt.
       { destruct f as [v w|v b l|v c]; simpl in *.
         - destruct (mfind w (st_tpls s)) as [ew|] eqn:Ew; [|discriminate]. injection Hch as <-.
           pose proof (H_inc_main v w ew n u Hv Ew Hin Er). pose proof (HKb v (v, 0)).
